@@ -37,6 +37,17 @@ type Exec struct {
 	idKnown  bool
 	nsent    int
 	lastTx   []vp.TxRec // transmissions of the last observation, in the order they are listed
+	// PAIRv1 driven against the PAIR machine: the constant hop header is checked here and left out of the trace
+	// (hop counting itself is C01's subject): a transmitted header equal to txHdrStrip, a received header equal to
+	// rxHdrStrip are written as "-"; injectPrefix is put in front of every injected body
+	txHdrStrip, rxHdrStrip, injectPrefix []byte
+}
+
+func stripIf(h, want []byte) []byte {
+	if want != nil && string(h) == string(want) {
+		return nil
+	}
+	return h
 }
 
 func NewExec(c *Ctx, tag string, proto mangos.ProtocolBase, newArgs string) *Exec {
@@ -101,7 +112,7 @@ func (e *Exec) observe() string {
 		}
 		delete(e.calls, id)
 		if call.Kind == "recv" && call.Err == nil {
-			evs = append(evs, fmt.Sprintf("ret:%d:msg:%s:%s", id, vp.Hex(e.toCanon(call.Msg.Header)), vp.Hex(call.Msg.Body)))
+			evs = append(evs, fmt.Sprintf("ret:%d:msg:%s:%s", id, vp.Hex(e.toCanon(stripIf(call.Msg.Header, e.rxHdrStrip))), vp.Hex(call.Msg.Body)))
 			call.Msg.Free()
 		} else {
 			evs = append(evs, fmt.Sprintf("ret:%d:%s", id, vp.ErrName(call.Err)))
@@ -119,7 +130,7 @@ func (e *Exec) observe() string {
 			e.idBase = (real - uint32(e.nsent)) & 0x7fffffff
 			e.idKnown = true
 		}
-		evs = append(evs, fmt.Sprintf("tx:%d:%s:%s", t.Pipe, vp.Hex(e.toCanon(t.Header)), vp.Hex(t.Body)))
+		evs = append(evs, fmt.Sprintf("tx:%d:%s:%s", t.Pipe, vp.Hex(e.toCanon(stripIf(t.Header, e.txHdrStrip))), vp.Hex(t.Body)))
 	}
 	cl := e.net.TakeEvs()
 	sort.Strings(cl)
@@ -210,7 +221,7 @@ func (e *Exec) Inject(id int, body []byte) {
 	if p == nil {
 		return
 	}
-	e.Op(fmt.Sprintf("inject %d %s", id, vp.Hex(body)), func() { p.Inject(body) })
+	e.Op(fmt.Sprintf("inject %d %s", id, vp.Hex(body)), func() { p.Inject(append(append([]byte{}, e.injectPrefix...), body...)) })
 }
 
 func (e *Exec) Recv(ctx int) int {
